@@ -279,10 +279,12 @@ func runCloseMidPacket(c closeMidPacketCase) (f *vh.Failure) {
 func TestCloseWhileServerKeepsSending(t *testing.T) {
 	gen := func(rt *rapid.T) closeMidPacketCase {
 		c := closeMidPacketCase{Queue: rapid.IntRange(0, 4).Draw(rt, "queue"), Packets: rapid.IntRange(1, 3).Draw(rt, "packets"), DelayUs: rapid.SampledFrom([]int{0, 50, 300, 1000}).Draw(rt, "delay")}
-		c.PerPacket = c.Queue + rapid.IntRange(2, 6).Draw(rt, "beyond")
+		// (the more packages of the packet are still to be handed on when Close comes, the
+		// longer the reader is busy with it afterwards)
+		c.PerPacket = c.Queue + rapid.OneOf(rapid.IntRange(2, 6), rapid.IntRange(7, 120), rapid.IntRange(500, 6000)).Draw(rt, "beyond")
 		return c
 	}
-	vh.Check(t, "TestCloseWhileServerKeepsSending", vh.N(150, 4000), gen, runCloseMidPacket)
+	vh.Check(t, "TestCloseWhileServerKeepsSending", vh.N(400, 6000), gen, runCloseMidPacket)
 }
 
 // ---- broken input that nobody looks at: packets for channels that do not exist, headers with
